@@ -68,6 +68,29 @@ TEMPLATES = {
     "FOR4LISTBARE": 'FOR G = 1 TO 2 : FOR H = 1 TO 2 : FOR I = 1 TO 2 : FOR J = 1 TO 2 : PRINT "{t}" : NEXT J , I : NEXT : PRINT "{t}" : NEXT',
     "FOR3LIST3": 'FOR K = 1 TO 2 : FOR J = 1 TO 2 : FOR I = 1 TO 2 : PRINT "{t}" : NEXT I , J , K',
     "FOR3BARELIST": 'FOR K = 1 TO 2 : FOR J = 1 TO 2 : FOR I = 1 TO 2 : PRINT "{t}" : NEXT : NEXT J , K',
+    # loop bounds taken from the input: every trip count 1..3 is one path (the guard keeps zero-trip loops out: Color
+    # BASIC runs their body once, BASIC09 does not - outside the property's fragment)
+    "FORSYM": 'IF B < 1 OR B > 3 THEN END\nFOR I = 1 TO B : PRINT "{t}" : NEXT I',
+    "FORSYMBARE": 'IF B < 1 OR B > 3 THEN END\nFOR I = 1 TO B : PRINT "{t}" : NEXT',
+    "FORSYMDOWN": 'IF B < 1 OR B > 3 THEN END\nFOR I = B TO 1 STEP - 1 : PRINT "{t}" : NEXT I',
+    "FORSYMSTEP": 'IF B < 1 OR B > 5 THEN END\nFOR I = 1 TO B STEP 2 : PRINT "{t}" : NEXT I',
+    "FORSYM2": 'IF B < 1 OR B > 2 THEN END\nFOR J = 1 TO 2 : FOR I = 1 TO B : PRINT "{t}" : NEXT : NEXT',
+    "FORSYMIF": 'IF B < 1 OR B > 3 THEN END\nFOR I = 1 TO B : IF I = A THEN PRINT "{t}"\nNEXT I',
+    "FORSYMGOTO": 'IF B < 1 OR B > 3 THEN END\nFOR I = 1 TO B : IF I = A THEN {G}\nNEXT I',
+    # nested IFs whose conditions contain OR / AND (a merge of the two tests must keep their grouping)
+    "IFIFOR1": 'IF A = 1 OR B = 1 THEN IF B = 2 THEN PRINT "{t}"',
+    "IFIFOR2": 'IF A = 1 THEN IF B = 1 OR A = 2 THEN PRINT "{t}"',
+    "IFIFOR2L": "IF A = 1 THEN IF B = 1 OR B = 2 THEN {G}",
+    "IFIFAND": 'IF A = 1 AND B = 1 THEN IF A = 1 OR B = 2 THEN PRINT "{t}"',
+    "IFIFELSE": 'IF A = 1 OR B = 1 THEN IF B = 2 THEN PRINT "{t}" ELSE PRINT "{t}"',
+    # statements after a jump-bearing statement on the same line / in the same arm
+    "ONGOTOTAIL": 'ON A GOTO {G} , {H} : PRINT "{t}" : END',
+    "ONGOTOTAIL2": 'ON A GOTO {G} : PRINT "{t}"',
+    "ONGOSUBTAIL": 'ON A GOSUB {S} : PRINT "{t}" : ON B GOSUB {S} , {S} : PRINT "{t}"',
+    "IFONGOTO": 'IF B = 2 THEN ON A GOTO {G} , {H} : PRINT "{t}"',
+    "IFONGOTOELSE": 'IF B = 2 THEN ON A GOTO {G} , {H} : PRINT "{t}" ELSE PRINT "{t}" : ON A GOTO {H} : PRINT "{t}"',
+    "GOSUBTAIL": 'GOSUB {S} : PRINT "{t}" : GOTO {G}',
+    "GOTOTAIL": 'GOTO {G} : PRINT "{t}"',
     "END": "END",
     "STOP": "STOP",
     "IFEND": "IF A = 1 THEN END",
@@ -103,7 +126,8 @@ def build(names):
         while "{t}" in text:
             text = text.replace("{t}", fresh(), 1)
         text = text.replace("{G}", str(end_line)).replace("{S}", str(sub_line)).replace("{H}", str(tgt_line))
-        lines.append(f"{10 * (i + 1)} {text}")
+        for k, part in enumerate(text.split("\n")):
+            lines.append(f"{10 * (i + 1) + 3 * k} {part}")
     lines.append(f'{end_line} PRINT "E" : END')
     lines.append(f'{sub_line} PRINT "S" : RETURN')
     lines.append(f'{tgt_line} PRINT "H" : END')
@@ -122,12 +146,19 @@ def valid(names):
 def sequences(tier):
     names = list(TEMPLATES)
     seqs = []
+    heavy = {n for n in names if n.startswith("FORSYM") or n in ("FOR4LISTBARE", "FOR3LISTBARE", "FOR3LIST3", "FOR3BARELIST")}
+    light = ("P", "IFL", "IFSG", "GOTO", "GOSUB", "FORBARE", "IFELSE", "ELIF")
     for n in (1, 2):
         for s in itertools.product(names, repeat=n):
-            if valid(s):
-                seqs.append(s)
+            if not valid(s):
+                continue
+            if n == 2 and tier == "quick" and (set(s) & heavy) and not all(x in heavy or x in light for x in s):
+                continue  # the many-path templates are paired with a few simple neighbours only in the quick tier
+            if n == 2 and tier == "quick" and len([x for x in s if x in heavy]) == 2:
+                continue
+            seqs.append(s)
     if tier == "thorough":
-        core = [n for n in names if n not in ("ELIFNOELSE", "FOR2MIX", "PP", "IFELSE2", "ELIF2", "FORDOWN", "FORSTEP", "FORJ", "GOSUB2", "IFSS", "NEXTI", "FORIF", "FORLINE", "NEXTBARE", "STOP", "END", "SET", "IFLS", "IFSL", "ELIFSL", "IFEND", "FORVAR", "IFNUM", "IFNUMELSE", "ELIFNUM", "ELIFNUML", "FOR3LISTBARE", "FOR4LISTBARE", "FOR3LIST3", "FOR3BARELIST")]
+        core = [n for n in names if n not in ("ELIFNOELSE", "FOR2MIX", "PP", "IFELSE2", "ELIF2", "FORDOWN", "FORSTEP", "FORJ", "GOSUB2", "IFSS", "NEXTI", "FORIF", "FORLINE", "NEXTBARE", "STOP", "END", "SET", "IFLS", "IFSL", "ELIFSL", "IFEND", "FORVAR", "IFNUM", "IFNUMELSE", "ELIFNUM", "ELIFNUML", "FOR3LISTBARE", "FOR4LISTBARE", "FOR3LIST3", "FOR3BARELIST", "FORSYMBARE", "FORSYMDOWN", "FORSYMSTEP", "FORSYM2", "FORSYMIF", "FORSYMGOTO", "IFIFOR2L", "IFIFAND", "IFIFELSE", "ONGOTOTAIL2", "ONGOSUBTAIL", "IFONGOTOELSE", "GOSUBTAIL", "GOTOTAIL")]
     else:
         core = ["P", "IFL", "IFSG", "IFELSE", "IFLL", "ELIF", "GOSUB", "ONGOTO", "FORBARE", "FOR2BARE", "FOR", "IFSTOP", "GOTO"]
     for s in itertools.product(core, repeat=3):
@@ -221,7 +252,7 @@ def run(tier):
     smt.reset_stats()
     seqs = sequences(tier)
     jobs = [(s, oi) for s in seqs for oi in range(len(OPTION_SETS))]
-    ctx.bounds.update({"templates": len(TEMPLATES), "lines_from_templates_max": 3, "sequences": len(seqs), "option_sets": OPTION_SETS, "step_bound": 140, "loop_trip_counts": "literal, >= 1"})
+    ctx.bounds.update({"templates": len(TEMPLATES), "lines_from_templates_max": 3, "sequences": len(seqs), "option_sets": OPTION_SETS, "step_bound": 140, "loop_trip_counts": "literal >= 1, or taken from the input with every value 1..3 (1..5 with STEP 2) a path"})
     for rel in ("coco/b09/grammar.py", "coco/b09/parser.py", "coco/b09/elements.py", "coco/b09/visitors.py", "coco/b09/prog.py", "coco/b09/compiler.py"):
         ctx.encode(rel + " (executed: real convert())", repo_source(rel))
     results = pmap(check_one, jobs, chunksize=32)
